@@ -204,6 +204,26 @@ def run(ctx):
                 recv[-1][0] = 0.0                # an exact tie
             check("%s %s" % (cname, dname), "%s/decode" % dname.split("[")[0], dec, recv, exact=True, n_in=n)
             if kind == "hard":
+                # the same words in other dtypes a caller may hold them in: same answer, input left alone
+                ref = [quiet(dec, r.unsqueeze(0))[0].to(torch.float64) for r in recv]
+                for dt in (torch.int32, torch.int64, torch.float64):
+                    ctx.count("dtype-variants")
+                    for r, rf in zip(recv, ref):
+                        xin = r.to(dt).unsqueeze(0)
+                        x0 = xin.clone()
+                        try:
+                            o1 = quiet(dec, xin)
+                            o2 = quiet(dec, xin)
+                        except Exception:
+                            ctx.count("layouts-rejected")
+                            break
+                        if not torch.equal(xin, x0):
+                            ctx.violation("C20/%s/input-modified" % dname.split("[")[0], "%s %s modifies its %s input tensor: %s becomes %s" % (cname, dname, str(dt).split(".")[1], x0[0].tolist(), xin[0].tolist()), {"component": "%s %s" % (cname, dname), "dtype": str(dt)})
+                            break
+                        if not torch.equal(o1.to(torch.float64), o2.to(torch.float64)) or not torch.equal(o1[0].to(torch.float64), rf):
+                            ctx.violation("C20/%s/dtype-or-repeat" % dname.split("[")[0], "%s %s on a %s copy of the same word answers %s then %s; on float32 it answers %s" % (
+                                cname, dname, str(dt).split(".")[1], o1[0].tolist(), o2[0].tolist(), rf.tolist()), {"component": "%s %s" % (cname, dname), "dtype": str(dt)})
+                            break
                 def with_errors(x, dec=dec):
                     out = dec(x, return_errors=True)
                     return torch.cat([out[0].to(torch.float32), out[1].to(torch.float32)], dim=-1) if isinstance(out, tuple) else out
